@@ -68,6 +68,7 @@ def source_params(cap):
 
 # ---------------------------------------------------------------------------------- D3 extractor
 CALLS = ("window_open_cold|window_open|credit_ok_cold|credit_ok|try_send_now_cold|try_send_now|write_slot|ensure_resident|"
+         "claim_run_cold|claim_run|resolve_run|try_send_run_batch|try_recv_run|try_recv_batch_mut|deq_run|"
          "notify_receiver|notify_senders|deq_once|publish_progress|flush_progress|drain_straggler|senders_alive|"
          "receivers_alive|drop_sender|drop_receiver|wake_all_receivers|wake_all_senders|close|wake")
 TOKEN_RE = re.compile(
@@ -87,10 +88,14 @@ FUNCS = [
     ("shared.rs::Shared::window_open_cold", "shared.rs", "Shared", "window_open_cold"),
     ("shared.rs::Shared::try_send_now", "shared.rs", "Shared", "try_send_now"),
     ("shared.rs::Shared::try_send_now_cold", "shared.rs", "Shared", "try_send_now_cold"),
+    ("shared.rs::Shared::claim_run", "shared.rs", "Shared", "claim_run"),
+    ("shared.rs::Shared::claim_run_cold", "shared.rs", "Shared", "claim_run_cold"),
+    ("shared.rs::Shared::resolve_run", "shared.rs", "Shared", "resolve_run"),
     ("shared.rs::Shared::ensure_resident", "shared.rs", "Shared", "ensure_resident"),
     ("shared.rs::Shared::write_slot", "shared.rs", "Shared", "write_slot"),
     ("shared.rs::Shared::notify_receiver", "shared.rs", "Shared", "notify_receiver"),
     ("shared.rs::Shared::deq_once", "shared.rs", "Shared", "deq_once"),
+    ("shared.rs::Shared::deq_run", "shared.rs", "Shared", "deq_run"),
     ("shared.rs::Shared::publish_progress", "shared.rs", "Shared", "publish_progress"),
     ("shared.rs::Shared::notify_senders", "shared.rs", "Shared", "notify_senders"),
     ("shared.rs::Shared::flush_progress", "shared.rs", "Shared", "flush_progress"),
@@ -102,9 +107,14 @@ FUNCS = [
     ("shared.rs::Shared::wake_all_receivers", "shared.rs", "Shared", "wake_all_receivers"),
     ("shared.rs::Shared::wake_all_senders", "shared.rs", "Shared", "wake_all_senders"),
     ("producer.rs::Sender::try_send", "producer.rs", "Sender", "try_send"),
+    ("producer.rs::Sender::try_send_batch", "producer.rs", "Sender", "try_send_batch"),
+    ("producer.rs::try_send_run_batch", "producer.rs", None, "try_send_run_batch"),
     ("producer.rs::Sender::close", "producer.rs", "Sender", "close"),
     ("producer.rs::Sender::drop", "producer.rs", "Sender", "drop"),
     ("consumer.rs::Receiver::try_recv", "consumer.rs", "Receiver", "try_recv"),
+    ("consumer.rs::Receiver::try_recv_batch", "consumer.rs", "Receiver", "try_recv_batch"),
+    ("consumer.rs::Receiver::try_recv_batch_mut", "consumer.rs", "Receiver", "try_recv_batch_mut"),
+    ("consumer.rs::try_recv_run", "consumer.rs", None, "try_recv_run"),
     ("consumer.rs::Receiver::close", "consumer.rs", "Receiver", "close"),
     ("consumer.rs::Receiver::drop", "consumer.rs", "Receiver", "drop"),
 ]
